@@ -23,6 +23,7 @@ func propC12() *Property {
 			{ID: "R12.3", Floor: 2, Text: "every comparison between the request's FQDN and an element of a well-known local-name table uses strings.EqualFold", Run: r12_3},
 			{ID: "R12.4", Floor: 3, Text: "FindAction and readRequest both parse with (*model.Request).ReadFromSocks5; handleConnect dials req.DstAddr.String()", Run: r12_4},
 			{ID: "R12.5", Floor: 2, Text: "forwardToProxyAction returns inside the first matching rule (no path from a match back to the loop); rejectPrivateAndLoopbackIPAction dominates forwardToProxyAction in FindAction and its REJECT is returned", Run: r12_5},
+			{ID: "R12.7", Floor: 1, Text: "FindAction's early exits for malformed input do not swallow well-formed requests: a length guard on the raw request uses a bound <= 7 (the shortest RFC 1928 request: zero-length domain name), so every request the handler accepts reaches the gate", Run: r12_7},
 			{ID: "R12.6", Floor: 1, Text: "egress.Input.Env[\"user\"] is assigned only from proxyConn.(UserContext).UserName()", Run: r12_6},
 		},
 	}
@@ -745,5 +746,65 @@ func r12_6(c *RC) {
 				c.Bad("env-user@"+fnName(fn), in.Pos(), "Env[\"user\"] is set from %s rather than from the mieru session's UserContext", describe(mu.Value))
 			}
 		})
+	}
+}
+
+func r12_7(c *RC) {
+	p := c.P
+	fa := p.Fn(s5Pkg, "Server.FindAction")
+	if fa == nil {
+		c.Anchor("socks5.Server.FindAction")
+		return
+	}
+	n := 0
+	instrs(fa, func(_ *ssa.BasicBlock, _ int, in ssa.Instruction) {
+		bo, ok := in.(*ssa.BinOp)
+		if !ok {
+			return
+		}
+		isLenData := func(v ssa.Value) bool {
+			call, ok := v.(*ssa.Call)
+			if !ok {
+				return false
+			}
+			b, ok := call.Common().Value.(*ssa.Builtin)
+			if !ok || b.Name() != "len" {
+				return false
+			}
+			f := fieldOrigin(call.Common().Args[0])
+			return f != nil && f.Name() == "Data"
+		}
+		var bound int64
+		switch {
+		case isLenData(bo.X) && (bo.Op == token.LSS || bo.Op == token.LEQ):
+			k, ok := constInt(bo.Y)
+			if !ok {
+				return
+			}
+			bound = k
+			if bo.Op == token.LEQ {
+				bound = k + 1
+			}
+		case isLenData(bo.Y) && (bo.Op == token.GTR || bo.Op == token.GEQ):
+			k, ok := constInt(bo.X)
+			if !ok {
+				return
+			}
+			bound = k
+			if bo.Op == token.GEQ {
+				bound = k + 1
+			}
+		default:
+			return
+		}
+		n++
+		if bound > 7 {
+			c.Bad("length-guard@FindAction", bo.Pos(), "FindAction treats requests shorter than %d bytes as malformed and answers DIRECT without consulting the gate, but a well-formed CONNECT with a zero-length domain name is 7 bytes long and is dialed as the local machine", bound)
+		} else {
+			c.OKH("length-guard@FindAction", bo.Pos(), "requests shorter than %d bytes skip the gate; the shortest well-formed request has 7", bound)
+		}
+	})
+	if n == 0 {
+		c.OK("length-guard@FindAction", fa.Pos(), "no length guard before the gate")
 	}
 }
